@@ -201,6 +201,23 @@ class State:
     def new_real(s, name):
         s.fresh += 1; return z3.Real('%s!%d' % (name, s.fresh))
 
+def loop_headers(f):
+    """targets of back edges of function f (depth-first search over the terminators): the loop headers, in layout order"""
+    def succ(b):
+        I = f.blocks[b][-1]
+        if I.op == 'br': return [I.t] if I.cond is None else [I.t, I.f]
+        if I.op == 'switch': return [I.default] + [l for _, l in I.cases]
+        if I.op == 'invoke': return [I.normal]
+        return []
+    heads = set(); state = {}; stack = [(f.order[0], iter(succ(f.order[0])))]; state[f.order[0]] = 1
+    while stack:
+        b, it = stack[-1]
+        for n in it:
+            if state.get(n) == 1: heads.add(n)
+            elif n not in state and n in f.blocks: state[n] = 1; stack.append((n, iter(succ(n)))); break
+        else: state[b] = 2; stack.pop()
+    return [b for b in f.order if b in heads]
+
 class Limits:
     def __init__(s, max_steps=4000000, max_paths=4000, feas_ms=10000, max_seconds=300, max_visits=None, visit_fn='', visit_block=''):
         s.max_steps = max_steps; s.max_paths = max_paths; s.feas_ms = feas_ms; s.max_seconds = max_seconds; s.max_visits = max_visits; s.visit_fn = visit_fn; s.visit_block = visit_block
@@ -223,6 +240,7 @@ class Interp:
     def __init__(s, mod, intercept=None, limits=None, merge_pure=True, resolve_selects=False):
         s.mod = mod; s.intercept = dict(DEFAULT_INTERCEPTS); s.intercept.update(intercept or {}); s.lim = limits or Limits(); s.steps = 0; s.ended = []; s.merge_pure = merge_pure
         s.gaddr = {}; s.called = {}; s.npaths = 0; s.resolve_selects = resolve_selects; s.t0 = time.time()
+        s.havoc = {}      # {(function-name substring, block label): handler(it, f, blk, regs, st)}: loop-header abstraction, see run()
     # ------------------------------------------------------------ set-up
     def new_state(s):
         st = State()
@@ -388,6 +406,18 @@ class Interp:
                 except KeyError as e:
                     raise Unsupported('phi reads undefined register %s' % e)
                 if newv: regs = dict(regs); regs.update(newv)
+                if s.havoc:
+                    # inductive step over a loop: at the first arrival at the named loop header the handler replaces the loop-carried state (phi registers, memory) by an arbitrary state
+                    # satisfying its invariant; the second arrival (back edge) records the new loop-carried values and ends the path
+                    hk = [k for k in s.havoc if k[0] in fname and k[1] == blk]
+                    if hk:
+                        vk = ('havoc', fname, blk); n = st.visits.get(vk, 0) + 1; st.visits = dict(st.visits); st.visits[vk] = n
+                        phis = [I.dest for I in instrs if I.op == 'phi']
+                        if n == 1:
+                            regs = dict(regs); s.havoc[hk[0]](s, f, blk, regs, st)
+                        else:
+                            st.events.append(('backedge', blk, {d: regs[d] for d in phis}, dict(regs)))
+                            s.ended.append((st, PathEnd('backedge', 'loop header %s reached again' % blk))); continue
             while True:
                 I = instrs[ip]
                 if I.op == 'phi': ip += 1; continue
@@ -665,7 +695,10 @@ class Interp:
                 if pred == 'ne': return z3.Xor(a, b)
                 raise Unsupported('i1 ordering')
             a = toI(a, w); b = toI(b, w)
-            if pred in ('ult', 'ugt', 'ule', 'uge'): raise Unsupported('unsigned comparison of symbolic integer')
+            if pred in ('ult', 'ugt', 'ule', 'uge'):
+                # symbolic integers are mathematical values in the signed range of their width: the unsigned reading adds 2^w to negatives
+                ua = z3.If(a < 0, a + (1 << w), a) if is_sym(a) else (a if a >= 0 else a + (1 << w)); ub = z3.If(b < 0, b + (1 << w), b) if is_sym(b) else (b if b >= 0 else b + (1 << w))
+                return {'ult': lambda: ua < ub, 'ugt': lambda: ua > ub, 'ule': lambda: ua <= ub, 'uge': lambda: ua >= ub}[pred]()
             return {'eq': lambda: a == b, 'ne': lambda: a != b, 'slt': lambda: a < b, 'sgt': lambda: a > b, 'sle': lambda: a <= b, 'sge': lambda: a >= b}[pred]()
         if isinstance(a, float) or isinstance(b, float): raise Unsupported('icmp on double bits')
         x, y = sgn(a, w), sgn(b, w)
